@@ -91,6 +91,8 @@ def site_pc(fi, node, az):
 
 def check(run):
     prog = run.prog
+    from . import common as _common
+    _common.fresh_hits(run, "C10")
     nm = prog.mod("decoders.network")
     w = lambda n, m=nm: f"{m.rel}:{getattr(n, 'lineno', 1)}"   # noqa: E731
     mth = prog.fn("hit.match_to_hit")
@@ -352,23 +354,35 @@ def check(run):
     need(len(inner) == 1, "anchor: normalize_percent_encoding has one nested callback")
     cb = inner[0]
     M_ = cb.params[0]
-    ifs = [n for n in cb.node.body if isinstance(n, ast.If)]
-    okn = False
-    det = "callback shape not recognised"
     unres = set(b"ABCDEFGHIJKLMNOPQRSTUVWXYZabcdefghijklmnopqrstuvwxyz0123456789-._~")
-    if len(ifs) == 1:
-        bdef = [s for s in cb.node.body if isinstance(s, ast.Assign) and isinstance(s.targets[0], ast.Name)]
-        if bdef and norm_src(bdef[0].value) in (f"binascii.unhexlify({M_}.group(1))", f"unhexlify({M_}.group(1))", f"bytes.fromhex({M_}.group(1).decode())"):
-            bv = bdef[0].targets[0].id
+    # the callback sees one of 22*22 two-hex-digit texts (escape-pattern obligation below): interpret its syntax tree for every one
+    from ..pureeval import Evaluator, FakeMatch, Raised, Unsupported
+    outer = {}
+    for st_ in npe.node.body:
+        if isinstance(st_, ast.Assign) and len(st_.targets) == 1 and isinstance(st_.targets[0], ast.Name):
             try:
-                den = byte_denotation(ifs[0].test, bv)
-                ret_byte = len(ifs[0].body) == 1 and isinstance(ifs[0].body[0], ast.Return) and common.is_name(ifs[0].body[0].value, bv)
-                tail = cb.node.body[-1]
-                ret_up = isinstance(tail, ast.Return) and norm_src(tail.value) in (f"{M_}.group(0).upper()", f"{M_}.group().upper()")
-                okn = den == unres and ret_byte and ret_up
-                det = f"decoded set differs from 'unreserved' by {sorted(bytes(sorted(den ^ unres)))!r}; returns-byte={ret_byte}; other-arm-upper={ret_up}"
-            except ValueError as e:
-                det = str(e)
+                outer[st_.targets[0].id] = Evaluator(prog, nm).ev(st_.value, dict(outer))
+            except (Unsupported, Raised):
+                pass
+    bad, det, n_eval = [], "", 0
+    hexd = b"0123456789abcdefABCDEF"
+    try:
+        for a_ in hexd:
+            for b_ in hexd:
+                h_ = bytes([a_, b_])
+                want = bytes([int(h_, 16)]) if int(h_, 16) in unres else b"%" + h_.upper()
+                try:
+                    got = Evaluator(prog, nm).call_function(cb.node, [FakeMatch({0: b"%" + h_, 1: h_})], outer)
+                except Raised as r_:
+                    got = f"raises {r_}"
+                n_eval += 1
+                if got != want:
+                    bad.append((b"%" + h_, got, want))
+    except Unsupported as u_:
+        det = f"callback not analysable: {u_}"
+    okn = not det and not bad and n_eval == 484
+    if bad:
+        det = f"{len(bad)} of 484 escapes are normalised differently, e.g. " + "; ".join(f"{h!r} -> {g!r} (documented: {w_!r})" for h, g, w_ in bad[:4])
     run.ob("R4-percent", "decoders.network.normalize_percent/unreserved-set", okn, w(cb.node),
            "exactly the escapes of RFC 3986 unreserved characters (ALPHA DIGIT - . _ ~) are decoded, every other escape is upper-cased", det,
            mech="exhaustive evaluation of the guard over 256 byte values")
